@@ -18,7 +18,7 @@ use std::collections::BTreeMap;
 pub fn phases(tier: Tier) -> Vec<Phase> {
     let mut v = vec![
         Phase::new("programs: kind-agnostic expressions of <=2 constructors x 28 contexts, all statement orders x 3 namings", json!({"kind":"programs","space":"agnostic","k":2})),
-        Phase::new("programs: fragments F5 (scoping), F6 (recursion, 2 declarations), F10 (collisions, repeated content tags), F7 (@references), F3 (transfers), all statement orders x 3 namings", json!({"kind":"programs","space":"frags"})),
+        Phase::new("programs: fragments F5 (scoping), F6 (recursion, 2 declarations), F10 (collisions, repeated content tags), F7 (@references), F3 (transfers), F8 (modules), all statement orders x 3 namings", json!({"kind":"programs","space":"frags"})),
     ];
     v.push(Phase::new("programs: kind-agnostic expressions of 3 constructors in the never-applied-function context, all statement orders x 3 namings", json!({"kind":"programs","space":"agnostic","k":3,"only_context":26})));
     if tier == Tier::Thorough {
@@ -224,7 +224,7 @@ pub fn run(phase: &Phase, sink: &mut Sink) {
         }
         _ => {
             let mut idx = 0u64;
-            for f in [4usize, 5, 9, 6, 2] {
+            for f in [4usize, 5, 9, 6, 2, 7] {
                 let frag = frags::fragment(f, false);
                 for p in frag.programs.iter() {
                     if sink.mine(idx) {
